@@ -115,11 +115,11 @@ def resolve1(x: object, default: object = None) -> Any:
     """
     hops = 0
     while isinstance(x, PDFObjRef):
-        x = x.resolve(default=default)
-        hops += 1
-        if hops > MAX_REFERENCE_CHAIN:
+        if hops >= MAX_REFERENCE_CHAIN:
             # a reference that leads back to itself never ends
             return default
+        x = x.resolve(default=default)
+        hops += 1
     return x
 
 
